@@ -95,7 +95,7 @@ def malformed(kind, rng):
 
 def build_stream(kind, dbx, rng, n_events):
     """-> list of packets (bytes). Actisense carries whole messages, the others frames."""
-    pool = hist.Pool(dbx, rng, n_single=6, n_fast=4)
+    pool = hist.Pool(dbx, rng, n_single=6, n_fast=5, max_fast_len=223)
     packets = []
     if kind == "actisense":
         while len(packets) < n_events:
